@@ -274,11 +274,16 @@ def shiftNegativeV (graded : Bool) (o : Opts) (lSigned rSigned : Bool) (lvals rv
   if o.portability && lSigned && (getValueLE o lvals (-1)).isSome then [⟨"shiftNegativeLHS", .portability, .normal⟩]
   else if rSigned then
     match getValueLE o rvals (-1) with
-    | some v => [⟨"shiftNegative", if graded then sevOf v.errorSeverity else .error, .normal⟩]
+    | some v =>
+      if graded then
+        -- ec2c7f5: `if (mSettings->isEnabled(value, false)) negativeBitwiseShiftError(tok, 2, value);`
+        (if isEnabled o v false then [⟨"shiftNegative", sevOf v.errorSeverity, .normal⟩] else [])
+      else [⟨"shiftNegative", .error, .normal⟩]
     | none => []
   else []
 
-/-- the code of record (4fa5b48): the picked shift count is graded by errorSeverity() like in every other value-based check -/
+/-- the code of record (4fa5b48 + ec2c7f5): the picked shift count passes `Settings::isEnabled(value, false)` and is graded by
+    errorSeverity() like in every other value-based check -/
 def shiftNegative : Opts → Bool → Bool → List Value → List Value → List Report := shiftNegativeV true
 
 /-- negativeBitwiseShiftError before 4fa5b48: `Severity::error` whatever value was picked (F04a; regression theorem only) -/
@@ -349,7 +354,7 @@ def decideSev (c : Checker) (v : Value) (inconclusiveCheck : Bool) (o : Opts) : 
     if !isEnabled o v false then none
     else if o.cpp14 then (if o.portability then some .portability else none)
     else some (sevOf v.errorSeverity)
-  | .shiftNegative => some (sevOf v.errorSeverity)
+  | .shiftNegative => if isEnabled o v false then some (sevOf v.errorSeverity) else none
   | .uninitvar =>
     if v.isInconclusive then none
     else if !isEnabled o v false then none
